@@ -160,6 +160,8 @@ def a_ops(cfgkey):
     mid = n // 2 - 3
     ops += [(("R", "big", n), True), (("R", "big[1]", n - 1), True), (("R", "big[%d]" % mid, n - mid), True),
             (("R", "big[%d]" % mid, 5), True), (("R", "big[%d]" % (n - 1), 1), True), (("R", "big", per + 1), True),
+            # spans that are an exact multiple of what one reply carries, from a zero and a non-zero start
+            (("R", "big", per), True), (("R", "big[3]", per), True), (("R", "big[1]", 2 * per), True),
             (("R", "big[%d]" % (n - 1), 2), True), (("R", "big", n + 1), True), (("R", "big[%d]" % n, 1), True),
             (("M", [["big", n], "s"]), True), (("M", ["big[5]", "s", "big[%d]" % (n - 1)]), True),
             (("R", "s", 1), True),
